@@ -51,3 +51,30 @@ Example ex_empty_then_insert_loses_end :
   let s2 := get (commit the_cfg s1 [mkE 0 0 (Nl [120])]) in
   cur s1 = [] /\ m2o s2 = [0; 0].
 Proof. vm_compute. split; reflexivity. Qed.
+
+(* unreplaced bytes: "aあb"; batch 1 deletes "a", batch 2 inserts "😀" at the start.  The first byte of "あ" (q = 1) became
+   the first byte of the text after batch 1 (entry forced to 0) and stays mapped to 0 when it moves to offset 4: its
+   mapped range [0, 2) still contains [1, 2) but its start is no longer exact.  "b" (q = 4) keeps an exact start. *)
+Definition ex2_o : list N := Nl [97; 227;129;130; 98].
+Definition ex2_b1 : list edit := [mkE 0 1 []].
+Definition ex2_b2 : list edit := [mkE 0 0 (Nl [240;159;152;128])].
+Definition ex2_s0 := get (start_build the_cfg ex2_o).
+Definition ex2_s1 := get (commit the_cfg ex2_s0 ex2_b1).
+Definition ex2_s2 := get (commit the_cfg ex2_s1 ex2_b2).
+
+Example ex2_tracks_a : Tracks the_cfg ex2_o ex2_s2 1 4 false.
+Proof.
+  apply (T_commit the_cfg ex2_o ex2_s1 ex2_b2 ex2_s2 1 0 false); [|vm_compute; reflexivity|vm_compute; reflexivity|vm_compute; discriminate|vm_compute; reflexivity].
+  apply (T_commit the_cfg ex2_o ex2_s0 ex2_b1 ex2_s1 1 1 true); [|vm_compute; reflexivity|vm_compute; reflexivity|vm_compute; discriminate|vm_compute; reflexivity].
+  apply T_start; [vm_compute; reflexivity | vm_compute; auto with arith].
+Qed.
+
+Example ex2_tracks_b : Tracks the_cfg ex2_o ex2_s2 4 7 true.
+Proof.
+  apply (T_commit the_cfg ex2_o ex2_s1 ex2_b2 ex2_s2 4 3 true); [|vm_compute; reflexivity|vm_compute; reflexivity|vm_compute; discriminate|vm_compute; reflexivity].
+  apply (T_commit the_cfg ex2_o ex2_s0 ex2_b1 ex2_s1 4 4 true); [|vm_compute; reflexivity|vm_compute; reflexivity|vm_compute; discriminate|vm_compute; reflexivity].
+  apply T_start; [vm_compute; reflexivity | vm_compute; auto with arith].
+Qed.
+
+Example ex2_values : m2o ex2_s2 = [0;0;0;0; 0;2;3; 4; 5] /\ unreplaced_b ex2_o (cur ex2_s2) (m2o ex2_s2) [ex2_b1; ex2_b2] = true.
+Proof. vm_compute. split; reflexivity. Qed.
